@@ -397,6 +397,9 @@ func c02(c *Sexp) *Sexp {
 	if os.Getenv("C02_CHILD") == "" {
 		return c02parent(c, v.Atom)
 	}
+	if c.Str("fmt") == "chan" {
+		return c02chan(c, v.Atom)
+	}
 	env := &c02env{text: v.Atom, data: []byte(v.Atom), timeout: 5 * time.Second, eofCap: 2000000, dumpMax: 20000}
 	if c.Get("timeout_ms") != nil {
 		env.timeout = time.Duration(c.Int("timeout_ms")) * time.Millisecond
